@@ -205,6 +205,8 @@ ActC06 == [][/\ ("res" \in DOMAIN R) => R.res # "Panic"
                    => \/ ObsSame(c)
                       \/ /\ Excused_RefusedLeaveQueued(c, R.e)
                          /\ PrintT(<<"KNOWN-FINDING", "C06", "RefusedLeaveStaysQueued", c, R.e>>)
+                      \/ /\ "SyncFailsAfterMerge" \in Dev /\ <<c, R.g>> \in hist'.syncFail
+                         /\ PrintT(<<"KNOWN-FINDING", "C06", "SyncFailsAfterMerge", c, R.e>>)
                       \/ /\ "RollbackBeforeValidation" \in Dev
                          /\ hist'.notifs # <<>>         \* rolled back, then the candidate turned out not to apply
                          /\ PrintT(<<"KNOWN-FINDING", "C06", "RollbackBeforeValidation", c, R.e>>)
